@@ -231,7 +231,7 @@ def run_session(case, root, fault=None, ns="run", count_lines=False):
     if fault is not None:
         t = fault["type"]
         if t == "fs":
-            fs_faults = [fault]
+            fs_faults = [fault] + list(fault.get("also", []))
         elif t == "compute":
             fail_at = fault["k"]
             fail_exc = fault.get("exc", "FloatingPointError")
@@ -580,6 +580,56 @@ def execute(case):
             if v is not None:
                 viol.append(v)
                 continue
+            # --- a second fault in the SAME session, on an event that only exists
+            # because of the first one (error handling, fallbacks, clean-up code)
+            if fault["type"] == "fs" and not fault.get("also") and r["fs_fired"]:
+                tp = float(spec.get("tail_prob", 0.0))
+                if "target" in fault["site"]:
+                    tp = min(1.0, tp * 4)
+                k0 = r["fs_fired"][0]["at_n"]
+                tail = [ev for ev in r["trace"].events[k0 + 1 :] if ev[1] != EPILOGUE]
+                # events of the tail that the fault-free run does not have at that address
+                refaddr = {(ev[1], ev[2]): ev[3:5] for ev in ref_events}
+                tail = [ev for ev in tail if refaddr.get((ev[1], ev[2])) != ev[3:5]]
+                ntail = int(spec.get("tail_max", 1))
+                if tail and tp > 0 and d.chance("tail", tp):
+                    picks = d.sample("tail:site", tail, min(ntail, len(tail)))
+                    for ev2 in picks:
+                        f2 = fs_fault_for(d, ev2)
+                        both = dict(fault)
+                        both["also"] = [f2]
+                        both["site"] = fault["site"] + "+" + f2["site"]
+                        _reset(root, pre_bytes)
+                        r2 = run_session(case, root, both)
+                        stats["tail_runs"] = stats.get("tail_runs", 0) + 1
+                        stats["sim_events"] += r2["trace"].n
+                        if len(r2["fs_fired"]) < 2:
+                            stats["unfired"] += 1
+                            continue
+                        k2 = f2.get("kind", "oserror")
+                        stats["fired"][k2] = stats["fired"].get(k2, 0) + 1
+                        stats["fired"]["(second fault in the error path)"] = stats["fired"].get("(second fault in the error path)", 0) + 1
+                        post2 = _state(root)
+                        sigs.add((case["workload"], both["site"], k2, type(r2["raised"]).__name__, post2[0]))
+                        digest_parts.append(f"tail|{both['site']}|{r2['trace'].digest()}|{post2[0]}")
+                        v2, committed2 = judge_failure(case, both, r2, pre, post2, ref_new, stats)
+                        if v2 is not None and v2["cls"] == "changed-after-failure" and post2 in accept_after_failure:
+                            v2 = None
+                        if v2 is not None:
+                            viol.append(v2)
+                            continue
+                        if committed2:
+                            continue
+                        rr2 = run_session(case, root, None, ns="clean")
+                        stats["retries"] += 1
+                        post3 = _state(root)
+                        if rr2["raised"] is not None:
+                            viol.append(dict(cls="retry-failed", key=f"{case['workload']}:{both['site']}", fault=both, msg=f"after a session that failed with two faults ({r2['raised']!r}) a clean re-run on the same path raised {rr2['raised']!r}"))
+                        elif post3 != ref_new:
+                            viol.append(dict(cls="retry-wrong-result", key=f"{case['workload']}:{both['site']}", fault=both, msg=f"clean re-run after a two-fault failure produced {_describe(post3)}, different from the fault-free result"))
+                    # restore the state left by the single-fault run for what follows
+                    _reset(root, pre_bytes)
+                    r = run_session(case, root, fault)
             if committed:
                 continue
             # --- a second fault during the retry (pairs), then the clean run
@@ -688,7 +738,7 @@ def summarize(results, tier):
     from ..batch import merge_counts
 
     fired, sites, sigs = {}, {}, set()
-    tot = dict(faulted_runs=0, absorbed=0, unfired=0, retries=0, leaks_tmp=0, leaks_sibling=0, pair_runs=0, committed_interrupts=0, sim_events=0, exdev_env=0, exdev_hits=0)
+    tot = dict(faulted_runs=0, absorbed=0, unfired=0, retries=0, leaks_tmp=0, leaks_sibling=0, pair_runs=0, committed_interrupts=0, sim_events=0, exdev_env=0, exdev_hits=0, tail_runs=0)
     samples = []
     wl = {}
     phys = {}
@@ -711,7 +761,8 @@ def summarize(results, tier):
         phys[r.get("physics")] = phys.get(r.get("physics"), 0) + 1
         events += r.get("events", 0)
     return dict(
-        evaluations=tot["faulted_runs"] + tot["pair_runs"],
+        evaluations=tot["faulted_runs"] + tot["pair_runs"] + tot["tail_runs"],
+        second_faults_in_error_paths=tot["tail_runs"],
         distinct_nontrivial=len(sigs),
         rule=(
             "one evaluation = one session (solve / edit / build) executed with one injected fault (plus, in pairs mode, a second fault during the re-run), "
